@@ -21,6 +21,7 @@ func init() {
 	register(&Prop{ID: "C01", Run: runC01, Replay: map[string]func(*mc.Ctx, json.RawMessage){
 		"addr":  replayer(c01Eval),
 		"batch": replayer(c01EvalBatch),
+		"reuse": replayer(c01EvalReuse),
 	}})
 }
 
@@ -232,6 +233,7 @@ func runC01(c *mc.Ctx) {
 	c.Assume("hash values outside the structured families (fills, walking bits, leading/trailing zero runs, two-bit patterns on thorough) behave alike: the encoder is data-independent except through 5-bit packing and leading zeros")
 	c.Assume("SHA-256, RIPEMD-160 from the Go standard/x libraries are trusted")
 	runC01Retain(c)
+	runC01Reuse(c)
 
 	h160 := hashFamily(20, c.Thorough())
 	h256 := hashFamily(32, c.Thorough())
